@@ -118,7 +118,11 @@ def get_type_graph(t: type) -> graphlib.TopologicalSorter[TypeNode]:
     while stack:
         parent = stack.popleft()
         parent_unwrapped = inspection.unwrap(parent.type)
-        if inspection.isliteral(parent_unwrapped):
+        # Literals hold values and unresolvable annotations (`Callable[[int], str]`,
+        #   `type[int]`, ...) are passed through as-is: neither has member types to visit.
+        if inspection.isliteral(parent_unwrapped) or inspection.isunresolvable(
+            parent_unwrapped
+        ):
             graph.add(parent)
             continue
 
